@@ -711,6 +711,12 @@ def logical_case(ctx, idx, spec=None, stream="logical"):
     else:
         steps = build_repo(ctx, w)
         ops = gen_ops(rng, rng.randint(2, 6))
+    dist = ctx.extra_cov.setdefault("repository_shapes", {})
+    for k in [x.split("(")[0] for x in steps] + ["HEAD-" + ("detached" if w.head[0] == "det" else "symbolic"),
+                                                 f"refs={min(len(w.refs), 4)}{'+' if len(w.refs) >= 4 else ''}",
+                                                 "tags" if w.tags else "no-tags",
+                                                 "gitlink" if any(k not in w.objs for ks in w.kids.values() for k in ks) else "no-gitlink"]:
+        dist[k] = dist.get(k, 0) + 1
     repo = Repo(str(w.path))
     lines, pending = [], []
     try:
